@@ -4,6 +4,7 @@ import HdVerif.Generated.TC09a
 import HdVerif.Generated.TC09b
 import HdVerif.Generated.TC09c
 import HdVerif.Generated.TC09d
+import HdVerif.Generated.TC09e
 /-! # Model for C09: `geometry_equal`, `match_geometry`, `VolumeToVolumeTransformer`, bounds checks
 (`src/highdicom/volume.py`).
 
@@ -14,7 +15,8 @@ returning the factors).  A volume is a geometry plus a total voxel function `(Ax
 Translated from the current source (tie T) and used here unchanged:
 `Gen.mgAlign` (alignment test of one target/source axis pair), `Gen.mgCropPad` (per-axis crop/pad
 derivation), `Gen.geomEqualDecision` (the decision of `geometry_equal`), `Gen.refBoundsAxis`,
-`Gen.v2vBoundsAxis` (per-axis tests of the two bounds checks).  Hand-written (tie C): the loops
+`Gen.v2vBoundsAxis` (per-axis tests of the two bounds checks), `Gen.mgHead` (the refusals at the
+head of `match_geometry`).  Hand-written (tie C): the loops
 around them, `permute_spatial_axes`, `pad` (constant modes), `__getitem__` with slices
 (CPython `slice.indices`), `np.allclose`, the 4×4 inverse and product of the transformer. -/
 namespace HdVerif.Match
@@ -240,12 +242,6 @@ def planAxis (nv tgt : Geom) (step : Int) (tol : Rat) (a : Ax) (rc rp : Bool) : 
   | .error e => .error e
   | .ok r => .ok (planOf r)
 
-/-- frame of reference test at the head of `match_geometry` (fix a5861fb) -/
-def forConflict (g h : Geom) : Bool :=
-  match g.frameOfRef, h.frameOfRef with
-  | some a, some b => a != b
-  | _, _ => false
-
 /-- the alignment loops: `permute_indices` and `step_sizes` -/
 def matchAlign (src tgt : Geom) (tol : Rat) : Except ErrKind ((Ax → Ax) × (Ax → Int)) :=
   match alignAxis src (tgt.dir 0) (tgt.spacing 0) tol with
@@ -285,8 +281,9 @@ def matchApply {α : Type} (nv : Vol α) (pl : AxisPlan × AxisPlan × AxisPlan)
 (after the fixes a5861fb, 79e6ca4, f6a8aef): frame of reference and coordinate system tests,
 alignment, permutation, crop/pad derivation, pad, crop, final comparison with the target. -/
 def matchGeometry {α : Type} (src : Vol α) (tgt : Geom) (tol : Rat) (c : α) : Except ErrKind (Vol α) :=
-  if forConflict src.geom tgt then .error .runtime else
-  if src.geom.cs != tgt.cs then .error .runtime else
+  match mgHead src.geom.frameOfRef tgt.frameOfRef src.geom.cs tgt.cs with   -- FoR / CS refusals (translated)
+  | .error e => .error e
+  | .ok _ =>
   match matchAlign src.geom tgt tol with
   | .error e => .error e
   | .ok (p, steps) =>
